@@ -21,6 +21,9 @@ type solver struct {
 	inc     io.WriteCloser
 	out     *bufio.Reader
 	defined map[int]bool // term ids defined in current session
+	depth   int          // scopes pushed above the base scope
+	defAt   [][]int      // ids defined at each depth
+	logAt   [][]int      // ids asserted at each depth (determinism check of replays)
 	tt      *termTable
 	Queries int
 	Sat     int
@@ -45,6 +48,8 @@ func newSolver(tt *termTable) *solver {
 		sv.log = f
 	}
 	sv.send("(push)")
+	sv.defAt = [][]int{nil}
+	sv.logAt = [][]int{nil}
 	return sv
 }
 
@@ -56,12 +61,45 @@ func (s *solver) send(line string) {
 	s.in.WriteByte('\n')
 }
 
-func (s *solver) reset(tt *termTable) {
+// resetAll drops every scope, definition and assertion.
+func (s *solver) resetAll(tt *termTable) {
+	s.popTo(0)
 	// pop/push instead of (reset): z3's reset costs ~18 ms
 	s.send("(pop)")
 	s.send("(push)")
 	s.defined = map[int]bool{}
+	s.defAt = [][]int{nil}
+	s.logAt = [][]int{nil}
+	s.depth = 0
 	s.tt = tt
+}
+
+func (s *solver) push() {
+	s.send("(push)")
+	s.depth++
+	s.defAt = append(s.defAt, nil)
+	s.logAt = append(s.logAt, nil)
+}
+
+func (s *solver) pop() {
+	s.send("(pop)")
+	for _, id := range s.defAt[s.depth] {
+		delete(s.defined, id)
+	}
+	s.defAt = s.defAt[:s.depth]
+	s.logAt = s.logAt[:s.depth]
+	s.depth--
+}
+
+func (s *solver) popTo(d int) {
+	for s.depth > d {
+		s.pop()
+	}
+}
+
+func (s *solver) markDefined(id int) {
+	s.defined[id] = true
+	s.defAt[s.depth] = append(s.defAt[s.depth], id)
 }
 
 func (s *solver) close() {
@@ -75,7 +113,7 @@ func (s *solver) close() {
 func (s *solver) name(t *term) string {
 	if l := t.leafSMT(); l != "" {
 		if t.op == "var" && !s.defined[t.id] {
-			s.defined[t.id] = true
+			s.markDefined(t.id)
 			s.send(fmt.Sprintf("(declare-const %s %s)", t.name, sortOf(t.w)))
 		}
 		return l
@@ -100,12 +138,13 @@ func (s *solver) name(t *term) string {
 		body = "(" + t.op + " " + strings.Join(args, " ") + ")"
 	}
 	s.send(fmt.Sprintf("(define-fun %s () %s %s)", n, sortOf(t.w), body))
-	s.defined[t.id] = true
+	s.markDefined(t.id)
 	return n
 }
 
 func (s *solver) assert(t *term) {
 	s.send("(assert " + s.name(t) + ")")
+	s.logAt[s.depth] = append(s.logAt[s.depth], t.id)
 }
 
 func (s *solver) readLine() (string, error) {
@@ -242,10 +281,14 @@ type pathCtx struct {
 
 	model      map[int]uint64
 	modelValid bool
-	mev        evaluator // model evaluator
-	uev        evaluator // scratch evaluator for unary domain checks
-	pev        evaluator // scratch evaluator for product-domain checks
+	mev        *evaluator // model evaluator
+	uev        *evaluator // scratch evaluator for unary domain checks
+	pev        *evaluator // scratch evaluator for product-domain checks
 	ProdShortcuts int
+	AssertShortcuts int
+	deferred []deferredAssert
+	retain   int   // decision levels whose solver scopes are kept from the previous path (-1: none)
+	rcursor  []int // per retained depth: next position in the solver's assertion log
 
 	known      map[int]bool       // term id -> truth value implied by the PC
 	domains    map[int]*[4]uint64 // 8-bit variable id -> feasible values (over-approximation)
@@ -296,16 +339,25 @@ func (p *pathCtx) eval(t *term) uint64 {
 	if t.op == "const" {
 		return t.val
 	}
-	if p.mev.cur == 0 {
-		p.mev.env = p.model
-		p.mev.next()
-	}
 	return p.mev.eval(t)
 }
 
 // assertT adds c to the path condition (solver + cheap fact stores).
 func (p *pathCtx) assertT(c *term) {
-	p.sol.assert(c)
+	if p.suppressed() {
+		// compare with what the retained scope holds
+		d := len(p.decisions)
+		for len(p.rcursor) <= d {
+			p.rcursor = append(p.rcursor, 0)
+		}
+		k := p.rcursor[d]
+		if d >= len(p.sol.logAt) || k >= len(p.sol.logAt[d]) || p.sol.logAt[d][k] != c.id {
+			unsup("nondeterministic replay at depth %d", d)
+		}
+		p.rcursor[d] = k + 1
+	} else {
+		p.sol.assert(c)
+	}
 	p.learn(c, true)
 }
 
@@ -345,8 +397,7 @@ func (p *pathCtx) learn(t *term, v bool) {
 		vt := p.tt.all[s[0]]
 		if vt.w != 8 {
 			p.relational[vt.id] = true
-		}
-		if vt.w == 8 {
+		} else {
 			d := p.domains[vt.id]
 			if d == nil {
 				d = &[4]uint64{^uint64(0), ^uint64(0), ^uint64(0), ^uint64(0)}
@@ -366,6 +417,9 @@ func (p *pathCtx) learn(t *term, v bool) {
 		}
 	}
 }
+
+// terms larger than this are not enumerated over byte domains
+const evalSizeLimit = 300
 
 func (p *pathCtx) markRelational(t *term, seen map[int]bool) {
 	if seen[t.id] {
@@ -555,19 +609,44 @@ func (p *pathCtx) eval3(t *term, depth int) (bool, bool) {
 
 // queryWith checks PC ∧ extra; on sat and wantModel it returns the model.
 func (p *pathCtx) queryWith(extra *term, wantModel bool) (string, map[int]uint64) {
-	n := p.sol.name(extra) // definitions outside the push
-	p.sol.send("(push)")
+	n := p.sol.name(extra) // definitions outside the temporary scope
+	p.sol.push()
 	p.sol.send("(assert " + n + ")")
 	r := p.sol.check()
 	var m map[int]uint64
 	if r == "sat" && wantModel {
 		m = p.sol.model(p.vars)
 	}
-	p.sol.send("(pop)")
+	p.sol.pop()
 	return r, m
 }
 
-func (p *pathCtx) record(d int) { p.decisions = append(p.decisions, d) }
+func (p *pathCtx) record(d int) {
+	p.decisions = append(p.decisions, d)
+	if len(p.decisions) > p.retain {
+		if len(p.decisions) == p.retain+1 && p.retain >= 0 {
+			p.checkReplayComplete()
+		}
+		p.sol.push()
+	}
+}
+
+// suppressed: the solver already holds this part of the path condition
+// (scopes retained from the previous path).
+func (p *pathCtx) suppressed() bool { return len(p.decisions) <= p.retain }
+
+func (p *pathCtx) checkReplayComplete() {
+	// every assertion of the retained scopes must have been re-derived
+	for d := 0; d <= p.retain && d < len(p.sol.logAt); d++ {
+		c := 0
+		if d < len(p.rcursor) {
+			c = p.rcursor[d]
+		}
+		if c != len(p.sol.logAt[d]) {
+			unsup("nondeterministic replay: retained scope %d has %d assertions, replay produced %d", d, len(p.sol.logAt[d]), c)
+		}
+	}
+}
 
 // branch decides a symbolic condition on this path.
 func (p *pathCtx) branch(c *term) bool {
@@ -702,6 +781,7 @@ func (p *pathCtx) concretize(t *term) uint64 {
 }
 
 func (p *pathCtx) assume(c *term) {
+	p.flushAsserts()
 	if c.isConst() {
 		if c.val == 0 {
 			panic(pathStop{"assume false"})
@@ -748,24 +828,62 @@ func (p *pathCtx) violate(msg string, m map[int]uint64) {
 	panic(pathStop{"violation"})
 }
 
+type deferredAssert struct {
+	c   *term
+	msg string
+}
+
+// assertProp checks an assertion.  Cheap refutations are immediate;
+// otherwise the assertion is queued and discharged together with the
+// other queued ones by a single solver query (flushAsserts) before the
+// next assumption and at the end of the path, so the verdict is still
+// "PC ∧ ¬assertion is unsat" for the path condition at the time of the
+// flush, which only adds branch decisions, never assumptions.
 func (p *pathCtx) assertProp(c *term, msg string) {
 	if c.isConst() {
 		if c.val == 0 {
+			p.flushAsserts()
 			p.ensureModel()
 			p.violate(msg, p.model)
 		}
 		return
 	}
-	p.ensureModel()
-	if p.eval(c) == 0 {
+	if v, ok := p.decide(c); ok && v {
+		p.AssertShortcuts++
+		// implied by facts/domains; still queued so that the solver confirms it
+	}
+	if p.modelValid && p.eval(c) == 0 {
+		p.flushAsserts()
 		p.violate(msg, p.model)
 	}
-	r, m := p.queryWith(p.tt.not(c), true)
+	p.deferred = append(p.deferred, deferredAssert{c, msg})
+}
+
+// flushAsserts discharges the queued assertions with one query.
+func (p *pathCtx) flushAsserts() {
+	if len(p.deferred) == 0 {
+		return
+	}
+	ds := p.deferred
+	p.deferred = nil
+	conj := p.tt.boolc(true)
+	for _, d := range ds {
+		conj = p.tt.and(conj, d.c)
+	}
+	r, m := p.queryWith(p.tt.not(conj), true)
 	switch r {
 	case "sat":
-		p.violate(msg, m)
+		p.setModel(m)
+		for _, d := range ds {
+			if p.eval(d.c) == 0 {
+				p.violate(d.msg, m)
+			}
+		}
+		p.violate(ds[0].msg+" (unattributed)", m)
 	case "unsat":
-		p.assertT(c)
+		for _, d := range ds {
+			p.learn(d.c, true)
+		}
 	default:
 		p.Unknowns++
 		panic(pathStop{"solver unknown"})
